@@ -116,7 +116,10 @@ class XMLInterface(AttributeReader):
                 continue
             xml_group_address: XMLAssignedGroupAddress = XMLAssignedGroupAddress()
             xml_group_address.parse_xml(assigned_ga)
-            self.group_addresses[xml_group_address.address] = xml_group_address.senders
+            # an address may be listed more than once - keep the senders of every entry
+            self.group_addresses.setdefault(xml_group_address.address, []).extend(
+                xml_group_address.senders
+            )
 
     def decrypt_attributes(
         self, password_hash: bytes, initialization_vector: bytes
